@@ -415,13 +415,17 @@ class TreeFacts:
                 cons = lambda a: a["mn"] <= a["l"] <= a["r"] <= a["mx"]
                 match = lambda a: INspec((a["l"], a["r"]), a["p"])
             m = Model(syms, constraint=cons)
-            construct = "IntervalTree.%s.early[%s]" % (fname, kind_ret)
+            construct = "IntervalTree.%s.early[%s]" % (fname, "ALL" if kind_ret.startswith("WRONGCOUNT") else kind_ret)
             if kind_ret == "EMPTY":
                 ok, wit, st_ = m.compare(lambda a: not gfn(a), match, mode="implies")
                 oracle = "guard => no stored row (mn <= l <= r <= mx) matches the query"
             elif kind_ret == "ALL":
                 ok, wit, st_ = m.compare(lambda a: match(a), gfn, mode="implies")
                 oracle = "guard => every stored row (mn <= l <= r <= mx) matches the query"
+            elif kind_ret.startswith("WRONGCOUNT"):
+                ctx.ob(construct, False, "if %s: return %s" % (norm(gexpr), norm(ret.value)),
+                       "`all indices` must be range(number of stored intervals); %s" % kind_ret[11:], node=st, func=f)
+                continue
             else:
                 raise AnalysisError("early return value %s of %s is neither empty nor provably all indices" % (
                     norm(ret.value), fname))
@@ -439,10 +443,25 @@ class TreeFacts:
                 n = inner.args[0]
                 if self._is_row_count(n):
                     return "ALL"
+                why = self._wrong_count(n)
+                if why:
+                    return "WRONGCOUNT:" + why
         if isinstance(v, ast.Call) and dotted(v.func) in ("np.arange", "numpy.arange") and len(v.args) == 1 \
                 and self._is_row_count(v.args[0]):
             return "ALL"
         return "OTHER"
+
+    def _wrong_count(self, n):
+        """n is self.X assigned in __init__ from something that is recognisably NOT the row count"""
+        if not (isinstance(n, ast.Attribute) and isinstance(n.value, ast.Name) and n.value.id == "self"):
+            return None
+        P = self.f_init.params[1]
+        for st in walk_no_nested(self.f_init.node):
+            if isinstance(st, ast.Assign) and len(st.targets) == 1 and dotted(st.targets[0]) == "self." + n.attr:
+                v = norm(st.value)
+                if v in ("%s.size" % P, "np.size(%s)" % P, "%s.shape[1]" % P, "len(%s[0])" % P, "%s.shape[0] * 2" % P):
+                    return "self.%s = %s counts end points / columns, not intervals" % (n.attr, v)
+        return None
 
     def _is_row_count(self, n):
         """n is `self.X` with X assigned in __init__ from the row count of the interval array."""
@@ -585,13 +604,20 @@ class TreeFacts:
             pb = [c for s in st.orelse for c in calls_in(s, "_query_point")]
             fact = "if %s: %s else: %s" % (norm(t), [norm(c) for c in qb], [norm(c) for c in pb])
             ok = is_seq and len(qb) == 1 and len(pb) == 1
+            # the hit list is turned into a truth value by bool()/len(): any()/all() look at the VALUES (index 0 is falsy)
+            for c in qb + pb:
+                w = parent(c)
+                wrap = dotted(w.func) if isinstance(w, ast.Call) else None
+                if wrap not in ("bool", "len"):
+                    ok = False
+                    fact_extra = " [hit list wrapped by %s]" % wrap
             for c in qb + pb:
                 g = ctx.func(TREES, "IntervalTree." + dotted(c.func).split(".")[-1])
                 b = _bind_call(c, g)
                 ok = ok and norm(b.get(g.params[1])) == item and norm(b.get(g.params[2])) == "self.root"
                 fl = b.get(g.params[3]) if len(g.params) > 3 else None
                 ok = ok and isinstance(fl, ast.Constant) and fl.value is True
-        ctx.ob("IntervalTree.__contains__", ok, fact,
+        ctx.ob("IntervalTree.__contains__", ok, fact + (locals().get("fact_extra") or ""),
                "tuple/list -> _query(item, self.root, check_extreme=True); else _query_point(item, self.root, check_extreme=True)",
                node=f.node, func=f)
 
